@@ -215,10 +215,11 @@ static void setup_options(void)
     if (system(p) != 0) mc_die("mkdir");
     if (i == 2 || i == 4) continue;    /* vendor layer of a root: only drop-in directories, the main file comes from /etc */
     snprintf(p, sizeof p, "%s/cfg.conf", loc[i]);
-    snprintf(c, sizeof c, "where=loc%d\ndup=a\ndup=b\npy=v\n  x=1\n", i);
+    snprintf(c, sizeof c, "where=loc%d\ndup=a\ndup=b\nrep=m\npy=v\n  x=1\n", i);
     mc_write_file(p, c, strlen(c));
     const char *cds[3] = { "cfg.conf.d", "cfg.d", "cfg.x.d" };
-    for (int k = 0; k < 3; k++) { snprintf(p, sizeof p, "%s/%s/z.conf", loc[i], cds[k]); snprintf(c, sizeof c, "dropin=%s\n", cds[k]); mc_write_file(p, c, strlen(c)); }
+    /* the drop-in defines rep several times; the main file defines it too: per file the first definition (or the joined list) counts */
+    for (int k = 0; k < 3; k++) { snprintf(p, sizeof p, "%s/%s/z.conf", loc[i], cds[k]); snprintf(c, sizeof c, "dropin=%s\nrep=c\nrep=d\n", cds[k]); mc_write_file(p, c, strlen(c)); }
   }
 }
 static void gen_options(void)
@@ -274,6 +275,9 @@ static void exec_options(void)
       free(v); v = NULL;
       econf_getStringValue(kf, NULL, "dup", &v);
       if (!v || strcmp(v, j ? "a\nb" : "a")) { sbuf e = {0}; sb_put_escs(&e, v); mc_fail(sig.s, "dup=\"%s\" %s JOIN_SAME_ENTRIES=1; %s", e.s, j ? "with" : "without", sig.s); sb_free(&e); }
+      free(v); v = NULL;
+      econf_getStringValue(kf, NULL, "rep", &v);
+      if (!v || strcmp(v, j ? "c\nd" : "c")) { sbuf e = {0}; sb_put_escs(&e, v); mc_fail(sig.s, "rep=\"%s\": the drop-in defines rep=c, rep=d over the main file's rep=m, %s JOIN_SAME_ENTRIES=1 the result must be \"%s\"; %s", e.s, j ? "with" : "without", j ? "c\\nd" : "c", sig.s); sb_free(&e); }
       free(v); v = NULL;
       econf_err rx = econf_getStringValue(kf, NULL, "x", &v);
       if (py ? rx != ECONF_NOKEY : rx != ECONF_SUCCESS) mc_fail(sig.s, "key x (from the indented line) %s although PYTHON_STYLE=1 is %s; %s", rx ? "is absent" : "exists", py ? "given" : "not given", sig.s);
